@@ -9,9 +9,9 @@ from .diff_schema import CATALOGUE, COLLATABLE, COLLATIONS, REFLECTABLE, UNREFLE
 TNAMES = ["acct", "b_item", "cust", "dept", "evt", "f1", "grp", "h2o", "inv", "jrnl", "k_9", "loc"]
 CNAMES = ["id", "a", "b", "c", "d", "e", "name", "qty", "ref", "ts", "flag", "x1", "y_2", "note", "amt"]
 
-STR_PLAIN = ["abc", "a b", "5", "x)", "(", "hello world", "0", "a,b", "N/A", '"q"', "%", "CURRENT_TIMESTAMP", "-1", "{}", "[]", "1 + 2"]
+STR_PLAIN = ["abc", "Pending", "ACTIVE", "a b", "5", "x)", "(", "hello world", "0", "a,b", "N/A", '"q"', "%", "CURRENT_TIMESTAMP", "-1", "{}", "[]", "1 + 2"]
 STR_ODD = ["it's", "", "(abc)", "'", "a\nb", "''", "(1)", "o'clock", "\n", "[:b1", " :x", "a :b c", "(none)"]
-EXPR_PLAIN = ["0", "1", "10", "-1", "1.5", "'abc'", "'it''s'", "''", "'a b'", "CURRENT_TIMESTAMP", "NULL", "TRUE", "FALSE",
+EXPR_PLAIN = ["0", "1", "10", "-1", "1.5", "'abc'", "'Pending'", "('Open')", "'it''s'", "''", "'a b'", "CURRENT_TIMESTAMP", "NULL", "TRUE", "FALSE",
               "(1 + 2)", "(datetime('now'))", "(abs(-3))", "'(x)'", "x'00'", "42", "'5'", "(7)", "CURRENT_DATE", "(1 + (2))",
               # parenthesised literals / expressions, the way SQLite's grammar writes expression defaults
               "('abc')", "('{}')", "('[]')", "('it''s')", "('a b')", "('')", "(10)", "(-1)", "(0)", "0.5", "(0.5)", "(lower('A'))",
@@ -322,6 +322,34 @@ def candidate_mutations(rng, schema, odd=False):
         next(c for c in tbl(s, tn)["cols"] if c["name"] == c2["name"])["default"] = nd
 
     out.append(({"m": "changeDefault", "t": tn, "c": c2["name"], "default": nd}, mutated(chd)))
+    # near-miss default changes: only the letter case (or one character) of a string value / of a quoted literal inside
+    # an expression differs ('Pending' -> 'pending'); string values are compared exactly
+    def _case_variant(d):
+        if d is None or d["kind"] not in ("str", "expr"):
+            return None
+        v = d["v"]
+        if d["kind"] == "expr":
+            import re as _re
+            m = _re.match(r"^(\(?')([^']*[A-Za-z][^']*)('\)?)$", v)   # 'abc' or ('abc'): case is kept inside the literal
+            if not m:
+                return None
+            body = m.group(2)
+            nb = rng.choice([body.upper(), body.lower(), body.swapcase(), body.capitalize()])
+            return None if nb == body else {"kind": "expr", "v": m.group(1) + nb + m.group(3)}
+        if not any(ch.isalpha() for ch in v):
+            return None
+        nv = rng.choice([v.upper(), v.lower(), v.swapcase(), v.capitalize()])
+        return None if nv == v else {"kind": "str", "v": nv}
+
+    cands = [(c, _case_variant(c.get("default"))) for c in t0["cols"] if not c.get("computed")]
+    cands = [(c, v) for c, v in cands if v is not None]
+    if cands:
+        c4, nd4 = rng.choice(cands)
+
+        def chd4(s, c4=c4, nd4=nd4):
+            next(c for c in tbl(s, tn)["cols"] if c["name"] == c4["name"])["default"] = nd4
+
+        out.append(({"m": "changeDefault", "t": tn, "c": c4["name"], "default": nd4}, mutated(chd4)))
     # addIndex
     ix = gen_index(rng, t0, set(used))
     out.append(({"m": "addIndex", "t": tn, "n": ix["name"], "ix": ix}, mutated(lambda s: tbl(s, tn)["ixs"].append(ix))))
